@@ -4,10 +4,12 @@ scratch copy of /repo (never to /repo itself), runs the named checks against it
 through VERIF_REPO_DIR and reports whether they fail (exit 1) as they must.
 usage: mutate.py [name-substring] [--budget S]"""
 import json,subprocess,sys,os,shutil,tempfile
-args=[a for a in sys.argv[1:] if not a.startswith('--')]
+args=[]
 budget='8'
-for i,a in enumerate(sys.argv):
-    if a=='--budget': budget=sys.argv[i+1]
+it=iter(sys.argv[1:])
+for a in it:
+    if a=='--budget': budget=next(it)
+    elif not a.startswith('--'): args.append(a)
 flt=args[0] if args else ''
 muts=json.load(open('/verif/selftest/mutants.json'))
 ok=True
